@@ -1423,8 +1423,8 @@ fn gen_op(r: &mut Sm, tr: &Tracker, weights: &[u32; 6], p_fault: f64, special: b
         },
         _ => match r.below(4) {
             0 => Op::Predicates { m },
-            1 => Op::EqClose { a: m, b: r.below(tr.ms.len().max(1) as u64) as usize, tol: Fb(*r.pick(&[1e-6, 1e-9, 1e-12])) },
-            _ => Op::CmpPerturbed { m, kind: r.below(10) as u8, k: r.usize(0, 63), delta: Fb(*r.pick(&[1e-3, 1e-2, 0.5, -1e-3, 1e-13])), tol: Fb(*r.pick(&[1e-6, 1e-9])) },
+            1 => Op::EqClose { a: m, b: r.below(tr.ms.len().max(1) as u64) as usize, tol: Fb(*r.pick(&[1e-6, 1e-9, 1e-12, 0.0])) },
+            _ => Op::CmpPerturbed { m, kind: r.below(10) as u8, k: r.usize(0, 63), delta: Fb(*r.pick(&[1e-3, 1e-2, 0.5, -1e-3, 1e-13])), tol: Fb(*r.pick(&[1e-6, 1e-9, 0.0])) },
         },
     }
 }
@@ -1466,7 +1466,7 @@ impl Prop for C15 {
             for i in 0..rr {
                 for j in 0..cc {
                     if j < i {
-                        data[i * cc + j] = 0.0;
+                        data[i * cc + j] = if r.chance(0.2) { -0.0 } else { 0.0 };
                     }
                 }
             }
